@@ -268,6 +268,7 @@ func RunCheck(opts RunOpts, t0 time.Time) (*Outcome, error) {
 	var samples []map[string]interface{}
 	var undecided, knownLines, unstable []string
 	var covers []string
+	var unreachableExits []string
 	usedKnown := map[int]bool{}
 	replayDir := filepath.Join(opts.Verif, "replays")
 	for _, r := range results {
@@ -278,6 +279,11 @@ func RunCheck(opts RunOpts, t0 time.Time) (*Outcome, error) {
 			covers = append(covers, o.Name+": reachable")
 			continue
 		case "cover-failed":
+			if o.ExitCover {
+				covers = append(covers, o.Name+": UNREACHABLE return at "+o.Pos.String()+" (dead code under the contracts, or facts contradictory on that path)")
+				unreachableExits = append(unreachableExits, o.Name+" at "+o.Pos.String())
+				continue
+			}
 			out.Lines = append(out.Lines, fmt.Sprintf("UNDECIDED obligation=%s reason=vacuous (cover is unsatisfiable)", o.Name))
 			undecided = append(undecided, o.Name+": vacuous")
 			continue
@@ -448,6 +454,7 @@ func RunCheck(opts RunOpts, t0 time.Time) (*Outcome, error) {
 			"dropped_or_abstracted":        append(dropped, imprecise...),
 			"contract_errors":              contractErrs,
 			"vacuity_covers":               covers,
+			"unreachable_returns":          unreachableExits,
 			"mirror_contracts_used":        e.MirrorUsed,
 			"bounded_standins":             []string{},
 			"not_claimed_unstable":         unstable,
